@@ -22,6 +22,7 @@ require (
 	github.com/samber/ro/plugins/strings v0.0.0
 	github.com/samber/ro/plugins/template v0.0.0
 	github.com/samber/ro/plugins/time v0.0.0
+	github.com/ulule/limiter/v3 v3.11.2
 	golang.org/x/exp v0.0.0-20240613232115-7f521ea00fb8
 	golang.org/x/sys v0.29.0
 	pgregory.net/rapid v1.3.0
@@ -37,7 +38,6 @@ require (
 	github.com/prometheus/client_model v0.6.1 // indirect
 	github.com/prometheus/common v0.44.0 // indirect
 	github.com/prometheus/procfs v0.15.1 // indirect
-	github.com/ulule/limiter/v3 v3.11.2 // indirect
 	golang.org/x/text v0.22.0 // indirect
 	google.golang.org/protobuf v1.34.2 // indirect
 )
